@@ -58,6 +58,9 @@ type c09Opts struct {
 	// retryField: the server sends an SSE retry: field (a reconnection delay, as SEP-1699 servers do
 	// before closing a stream they want polled) with every event, and alone in otherwise empty bodies
 	retryField bool
+	// singleCut: the first body is cut (at every offset, either way) and every reconnect is then served
+	// in full: exactly one cut per execution, so a symptom is attributable to that one position
+	singleCut bool
 }
 
 type c09Body struct {
@@ -125,6 +128,12 @@ func c09CutClass(ev string, off int) string {
 			name = "retry-line"
 		}
 		if off < pos+len(line) {
+			if name == "data-line" && off == pos+len(line)-1 {
+				return "after-data-payload" // the whole payload has arrived, its line end has not
+			}
+			if name == "data-line" && off-pos > len("data: ") {
+				return "in-data-payload" // at least one byte of the payload has arrived, and not all of it
+			}
 			return "in-" + name
 		}
 		if off == pos+len(line) {
@@ -303,6 +312,8 @@ func (s *c09Script) roundTrip(req *http.Request, n int) (*http.Response, error) 
 		outcome := 0
 		if s.o.alwaysFail {
 			outcome = 1
+		} else if s.o.singleCut {
+			outcome = 0
 		} else if s.gets <= 3 {
 			outcome = s.ch.Free("reconnect-outcome", 7) // later reconnects are always served
 		}
@@ -360,6 +371,9 @@ func c09Run(o c09Opts, ch *verifx.Chooser) (obs, bad, sig string, steps int) {
 					}
 				}
 				sig += " after a clean end of stream " + at
+				if o.singleCut {
+					sig += " (the only cut)"
+				}
 				bad += fmt.Sprintf(" [the stream ended cleanly inside an event: %v]", sc.eofMidEvent)
 			}
 		}
@@ -530,6 +544,8 @@ func TestVerifC09(t *testing.T) {
 		mk("post-stream/ids+priming/retries=1", c09Opts{ids: true, priming: true, maxRetries: 1}),
 		mk("post-stream/no-ids/retries=1", c09Opts{ids: false, maxRetries: 1}),
 		mk("post-stream/ids/no-retries", c09Opts{ids: true, maxRetries: -1}),
+		mk("post-stream/ids/single-cut/retries=2", c09Opts{ids: true, maxRetries: 2, singleCut: true}),
+		mk("post-stream/ids+priming/single-cut/retries=1", c09Opts{ids: true, priming: true, maxRetries: 1, singleCut: true}),
 		mk("post-stream/ids/retries=2/empty-resumes", c09Opts{ids: true, maxRetries: 2, emptyResumes: true}),
 		mk("post-stream/ids/retries=2/empty-resumes-with-retry-field", c09Opts{ids: true, maxRetries: 2, emptyResumes: true, retryField: true}),
 		mk("post-stream/ids+priming+retry-fields/retries=1", c09Opts{ids: true, priming: true, maxRetries: 1, retryField: true}),
